@@ -8,6 +8,7 @@ package api
 // synctest bubble through the recording client of c02_common_test.go.
 
 import (
+	"fmt"
 	"net/http"
 	"net/http/httptest"
 	"testing"
@@ -41,28 +42,43 @@ func c02RouteOptions(os []c02Opt) []RouteOption {
 // order, then the engine binds the routes on the server's own router exactly as
 // Server.Start does before it listens.
 func c02BuildEngine(c c02Case, h http.HandlerFunc) (func(int, http.ResponseWriter, *http.Request), error) {
-	cfg := Config{Timeout: int64(c.T), MaxConns: c.MC, MaxBytes: int64(c.MB), Verbose: c.V}
-	cfg.Name = "c02" // CpuThreshold 0: no shedder in the chain (it reads the real CPU load of the machine)
-	srv, err := NewServer(cfg)
-	if err != nil {
-		return nil, err
-	}
-	var rs []Route
+	// the []Route slices and the []RouteOption slices are built once and handed to every
+	// server of the case; all servers exist before any of them binds its routes
+	routeSlices := make([][]Route, len(c.R))
+	optSlices := make([][]RouteOption, len(c.R))
 	for i, r := range c.R {
-		if !r.Sh {
-			rs = []Route{{Method: c02Method(r.M), Path: c.basePath(i), Handler: h}}
-		}
-		shared := r.Sh || (i+1 < len(c.R) && c.R[i+1].Sh)
-		if !shared && i%2 == 0 {
-			srv.AddRoute(rs[0], c02RouteOptions(r.O)...)
+		if r.Sh {
+			routeSlices[i] = routeSlices[i-1]
 		} else {
-			srv.AddRoutes(rs, c02RouteOptions(r.O)...)
+			routeSlices[i] = []Route{{Method: c02Method(r.M), Path: c.basePath(i), Handler: h}}
+		}
+		optSlices[i] = c02RouteOptions(r.O)
+	}
+	var srvs []*Server
+	for sv := 0; sv < c.servers(); sv++ {
+		cf := c.cfg(sv)
+		cfg := Config{Timeout: int64(cf.T), MaxConns: cf.MC, MaxBytes: int64(cf.MB), Verbose: c.V}
+		cfg.Name = fmt.Sprintf("c02-%d", sv) // CpuThreshold 0: no shedder in the chain (it reads the real CPU load of the machine)
+		srv, err := NewServer(cfg)
+		if err != nil {
+			return nil, err
+		}
+		for i, r := range c.R {
+			shared := r.Sh || (i+1 < len(c.R) && c.R[i+1].Sh)
+			if !shared && i%2 == 0 {
+				srv.AddRoute(routeSlices[i][0], optSlices[i]...)
+			} else {
+				srv.AddRoutes(routeSlices[i], optSlices[i]...)
+			}
+		}
+		srvs = append(srvs, srv)
+	}
+	for _, srv := range srvs {
+		if err := srv.ng.bindRoutes(srv.router); err != nil {
+			return nil, err
 		}
 	}
-	if err := srv.ng.bindRoutes(srv.router); err != nil {
-		return nil, err
-	}
-	return func(_ int, w http.ResponseWriter, r *http.Request) { srv.router.ServeHTTP(w, r) }, nil
+	return func(slot int, w http.ResponseWriter, r *http.Request) { srvs[slot/len(c.R)].router.ServeHTTP(w, r) }, nil
 }
 
 func init() {
@@ -83,6 +99,6 @@ func init() {
 }
 
 func TestVerif_C02_rest_chain(t *testing.T) {
-	kit.Run(t, "C02", "rest-chain", kit.Opts{Quick: 4000, Thorough: 96000}, c02Gen,
+	kit.Run(t, "C02", "rest-chain", kit.Opts{Quick: 2500, Thorough: 48000}, c02Gen,
 		func(c c02Case) kit.Verdict { return c02Run(t, c, c02BuildEngine, true) })
 }
